@@ -25,6 +25,8 @@ impl ractor::Message for Msg {}
 
 enum Msg {
     Req { id: u32, beh: Beh, reply: RpcReplyPort<u32> },
+    /// the same request in the shape the call! / call_t! macros build (arguments first, reply port last)
+    TReq(u32, Beh, RpcReplyPort<u32>),
     Fwd(u32),
 }
 
@@ -43,7 +45,7 @@ impl TryFrom<Msg> for DReq {
     type Error = ();
     fn try_from(m: Msg) -> Result<DReq, ()> {
         match m {
-            Msg::Req { id, beh, reply } => Ok(DReq { id, beh, reply }),
+            Msg::Req { id, beh, reply } | Msg::TReq(id, beh, reply) => Ok(DReq { id, beh, reply }),
             _ => Err(()),
         }
     }
@@ -72,7 +74,12 @@ impl Actor for Callee {
         Ok(vec![])
     }
     async fn handle(&self, _m: ActorRef<Msg>, m: Msg, held: &mut Self::State) -> Result<(), ActorProcessingErr> {
+        let m = match m {
+            Msg::TReq(id, beh, reply) => Msg::Req { id, beh, reply },
+            other => other,
+        };
         match m {
+            Msg::TReq(..) => unreachable!(),
             Msg::Fwd(v) => self.log.lock().unwrap().push(format!("fwd {v}")),
             Msg::Req { id, beh, reply } => {
                 let v = value(self.index, id);
@@ -124,7 +131,7 @@ enum Exit {
 struct Sc {
     callers: Vec<(Beh, Option<u64>)>,
     exit: Exit,
-    /// every second caller goes through a derived reference
+    /// every second caller goes through a derived reference, the others through the call! / call_t! macros
     derived: bool,
 }
 
@@ -144,6 +151,19 @@ fn call_body(sc: Sc) -> vsched::Body {
                     let t0 = vsched::now();
                     let r = if sc_derived && i % 2 == 1 {
                         c.get_derived::<DReq>().call(|reply| DReq { id, beh, reply }, timeout.map(Duration::from_millis)).await.map_err(|_| ())
+                    } else if sc_derived && i % 2 == 0 {
+                        // (in the same units the other callers go through the macros: call_t! with arguments when
+                        // there is a timeout, call! otherwise; both flatten the verdict into a Result)
+                        let flat: Result<u32, ractor::RactorErr<Msg>> = match timeout {
+                            Some(t) => ractor::call_t!(c, Msg::TReq, t, id, beh),
+                            None => ractor::call!(c, Msg::TReq, id, beh),
+                        };
+                        match flat {
+                            Ok(v) => Ok(CallResult::Success(v)),
+                            Err(ractor::RactorErr::Timeout) => Ok(CallResult::Timeout),
+                            Err(ractor::RactorErr::Messaging(ractor::MessagingErr::ChannelClosed)) => Ok(CallResult::SenderError),
+                            Err(_) => Err(()),
+                        }
                     } else {
                         c.call(|reply| Msg::Req { id, beh, reply }, timeout.map(Duration::from_millis)).await.map_err(|_| ())
                     };
